@@ -250,9 +250,9 @@ def replay_histories(ev, rep, tier, seed):
     res = tlc.run("MC_Filter", cfg, workers=8, timeout=3000)
     ev.add_tlc("MC_Filter history enumeration (exhaustive, depth %d)" % d,
                res)
-    # depth 7: 1.4 million histories; every third schedule (by hash of the
+    # depth 7: 1.4 million histories; every fifth schedule (by hash of the
     # schedule, so that all expectations of a kept schedule are kept)
-    keep = 1 if tier == "quick" else 3
+    keep = 1 if tier == "quick" else 5
     by_inst = {}
     for h in res.iter_tagged("H", consume=True):
         if keep > 1:
